@@ -216,7 +216,7 @@ def norm_tail(stmts: list) -> list:
     generator): control flow is brought to nested if/else form before the shape matchers look at it.
       * `if c: A; return` followed by R          ->  `if c: A else: R`       (early return = else branch)
       * `if c: A else: B; return` followed by R  ->  `if c: A; R else: B`
-      * `if not c: A else: B`                    ->  `if c: B else: A`
+      * `if not f(...): A else: B`               ->  `if f(...): B else: A`;  `if x is not y: A else: B` -> `if x is y: B else: A`
       * a trailing bare `return` / `return None` is dropped; `pass` is dropped
     applied recursively to the branches (which are then in tail position themselves).  Statements that are not in
     tail position are left alone (a `return` inside a loop stays and is rejected later, fail closed)."""
@@ -236,7 +236,11 @@ def norm_tail(stmts: list) -> list:
             else:
                 continue    # an ordinary if followed by more statements: not in tail position
         test = s.test
-        if isinstance(test, ast.UnaryOp) and isinstance(test.op, ast.Not) and orelse:
+        if isinstance(test, ast.UnaryOp) and isinstance(test.op, ast.Not) and orelse \
+                and isinstance(test.operand, ast.Call):
+            # `if not isinstance(...)` / `if not self.has_children()`: swap the branches.  A negated *truth test* of a
+            # field (`not self._real_name`) is left alone: it is not the negation of an identity test, and the
+            # classification of the root test must see it as written.
             test, body, orelse = test.operand, orelse, body
         elif isinstance(test, ast.Compare) and len(test.ops) == 1 and isinstance(test.ops[0], ast.IsNot) and orelse:
             test = ast.copy_location(ast.Compare(left=test.left, ops=[ast.Is()], comparators=test.comparators), test)
@@ -288,6 +292,19 @@ def tr_serialise(fn: ast.FunctionDef, inner: ast.FunctionDef):
         raise _err(fn, 'serialise() does not return buffer.getvalue()')
     if rets[0].lineno < call.lineno:
         raise _err(fn, 'serialise() returns before writing')
+    # `x = A if c else B` (also on tuples) is `if c: x = A else: x = B`
+    for holder in ast.walk(fn):
+        for fld in ('body', 'orelse'):
+            stmts = getattr(holder, fld, None)
+            if not isinstance(stmts, list):
+                continue
+            for i, st_ in enumerate(stmts):
+                if isinstance(st_, ast.Assign) and isinstance(st_.value, ast.IfExp):
+                    ie = st_.value
+                    new = ast.If(test=ie.test,
+                                 body=[ast.copy_location(ast.Assign(targets=st_.targets, value=ie.body), st_)],
+                                 orelse=[ast.copy_location(ast.Assign(targets=st_.targets, value=ie.orelse), st_)])
+                    stmts[i] = ast.copy_location(new, st_)
     # no rebinding of the option names
     brace_if = None
     for n in ast.walk(fn):
@@ -524,7 +541,9 @@ def tr_export(fn: ast.FunctionDef):
 
 
 def tr_parse(fn: ast.FunctionDef) -> dict:
-    """Decisive sites of Keyvalues.parse:
+    """(The names of the loop's variables are the roles found by translate/c01_kvloop.py in the prologue of parse:
+    a renamed local changes nothing.)
+    Decisive sites of Keyvalues.parse:
       * the options handed to Tokenizer(...) (the lexer model hard-codes string_bracket=True and takes
         allow_escapes from the caller; anything else fails closed);
       * the tests guarding the two 'Illegal newline' errors: `not newline_keys and (<test>)`, `not newline_values
@@ -532,6 +551,9 @@ def tr_parse(fn: ast.FunctionDef) -> dict:
       * the two flag-replacement tests `can_flag_replace and ... cur_block_contents[-1] ...`: whether the list is
         tested for emptiness before it is indexed."""
     out: dict = {}
+    from translate.c01_kvloop import LoopTr
+    roles = LoopTr(fn)
+    v_cfr, v_cont, v_tok, v_cur = roles.cfrv, roles.contv, roles.tokenizer, roles.curv
     # --- Tokenizer(...) construction
     calls = [n for n in ast.walk(fn) if isinstance(n, ast.Call) and _is_name(n.func, 'Tokenizer')]
     if len(calls) != 1:
@@ -583,7 +605,7 @@ def tr_parse(fn: ast.FunctionDef) -> dict:
     kch, kline, kname = brk('newline_keys')
     vch, vline, vname = brk('newline_values')
     # the key test must look at the token value of the main loop, the value test at the value token
-    loops = [n for n in ast.walk(fn) if isinstance(n, ast.For) and _is_name(n.iter, 'tokenizer')]
+    loops = [n for n in ast.walk(fn) if isinstance(n, ast.For) and _is_name(n.iter, v_tok)]
     if len(loops) != 1 or not (isinstance(loops[0].target, ast.Tuple) and len(loops[0].target.elts) == 2
                                and all(isinstance(e, ast.Name) for e in loops[0].target.elts)):
         raise _err(fn, 'main loop `for token_type, token_value in tokenizer` not recognised')
@@ -598,17 +620,17 @@ def tr_parse(fn: ast.FunctionDef) -> dict:
 
     # --- flag replacement tests
     reps = [n for n in ast.walk(fn) if isinstance(n, ast.If) and isinstance(n.test, ast.BoolOp)
-            and isinstance(n.test.op, ast.And) and n.test.values and _is_name(n.test.values[0], 'can_flag_replace')]
+            and isinstance(n.test.op, ast.And) and n.test.values and _is_name(n.test.values[0], v_cfr)]
     if len(reps) != 2:
         raise _err(fn, f'expected two `can_flag_replace and ...` tests, found {len(reps)}')
     guards = []
     for n in reps:
         guarded = False
         for v in n.test.values[1:]:
-            if _is_name(v, 'cur_block_contents'):
+            if _is_name(v, v_cont):
                 guarded = True
                 break
-            if any(isinstance(x, ast.Subscript) and _is_name(x.value, 'cur_block_contents') for x in ast.walk(v)):
+            if any(isinstance(x, ast.Subscript) and _is_name(x.value, v_cont) for x in ast.walk(v)):
                 break
         guards.append(guarded)
     out['replace_guards'] = guards
@@ -629,7 +651,7 @@ def tr_parse(fn: ast.FunctionDef) -> dict:
         if _is_name(v, 'single_block'):
             base += 1
         elif isinstance(v, ast.Compare) and len(v.ops) == 1 and isinstance(v.ops[0], ast.Is) \
-                and _is_name(v.left, 'cur_block') and _is_name(v.comparators[0], root_name):
+                and _is_name(v.left, v_cur) and _is_name(v.comparators[0], root_name):
             base += 1
         else:
             extra.append(v)
